@@ -3,7 +3,7 @@
    the theorems below are its laws, for every grammar, text, oracle, configuration and frame.        *)
 From Coq Require Import List NArith.
 From TatsuV Require Import Base.PyStr Engine.Value Engine.Syntax Engine.Input Engine.Engine Engine.Calls
-     Engine.EngineRel Engine.CleanLaws Engine.MemoProof.
+     Engine.EngineRel Engine.CleanLaws Engine.MemoProof Engine.BoundsProof.
 Import ListNotations.
 
 Section C01.
@@ -86,7 +86,15 @@ Theorem C01_faithful_is_clean :
   forall n e f, peval' n e f <> Fatal OOF -> fst (feval' n e f gstate0) = peval' n e f.
 Proof. exact (memo_transparent text re_at isalnum isalpha lower upper ic unsafe rules ec act lineat). Qed.
 
+(* a successful evaluation consumes a prefix: it never moves backwards and never leaves the text (for every regex
+   oracle whose matches lie inside the text) *)
+Theorem C01_consumed_bounds :
+  (forall id pos n v, re_at id pos = Some (n, v) -> pos + n <= len text) ->
+  forall n e f r f', peval' n e f = Ok r f' -> pos f <= len text -> pos f <= pos f' <= len text.
+Proof. exact (peval_consumed_bounds text re_at isalnum isalpha lower upper ic unsafe rules ec act lineat). Qed.
+
 End C01.
+Print Assumptions C01_consumed_bounds.
 Print Assumptions C01_semantics_deterministic.
 Print Assumptions C01_choice_ordered.
 Print Assumptions C01_choice_all_fail.
